@@ -7,6 +7,7 @@ Property theorems only (helper lemmas: `Proofs/BrokerFanout*.lean`).  Model:
 specification: `Spec/Match.lean` (section 4.7).
 -/
 import Mqtt.Proofs.BrokerFanoutHistory
+import Mqtt.Proofs.BrokerRefineCor
 
 set_option linter.unusedSimpArgs false
 
@@ -316,5 +317,54 @@ example :
      (onPublish b1 ⟨{ qos := 0, topic := [97, 47, 36, 98], payload := [7] }, false⟩).2.2.1.length = 4) ∧
     (onPublish exState ⟨{ qos := 0, topic := [36, 83, 89, 83], payload := [7] }, false⟩).2.2.1 = [] := by
   decide
+
+/-! ### the refinement theorem, specialised: who gets a PUBLISH, after any history -/
+
+open Mqtt.Proofs.BrokerRefine (okRun specRun pubOk mkCopy) in
+open Mqtt.Spec.Broker (Accepts modelGroup pubOf wild) in
+/-- **Refinement (Proofs/BrokerRefine.lean: `Broker_refines_spec`) for C01.**
+After *any* history admitted by `okRun` (decidable side condition `okEv` per
+event: topic arguments `good` - no empty level, finding B3, no leading '$' -,
+PUBLISH fields in range, connection numbers fresh and below `cbBase`, no second
+live connection with a supplied client identifier; CONNECT of resumed sessions
+and connection ends included), a PUBLISH with QoS 0 or 1 on a live connection
+is accepted by the reference broker (`Accepts`: membership in the set of
+outcomes `Spec.Broker.step` describes); explicitly, for every addressee `g`
+(connection or in-process callback) the PUBLISH items the fan-out hands to `g`
+are - DUP and packet identifier wildcarded, as a multiset - exactly one copy per
+subscription the reference broker holds for `g` whose filter matches the topic
+(section 4.7), at the lower of the two QoS and with RETAIN = 0; and `g` gets
+nothing at all if it holds no matching subscription. -/
+theorem C01_refines_reference (es : List Ev) (hok : okRun {} es = true) (c : Nat) (p : Pub)
+    (hl : (run {} es).1.alive c = true) (hp : pubOk p = true) (hq : p.qos ≤ 1) :
+    Accepts (Mqtt.Spec.Broker.step (specRun {} es).1 (.packet c (.publish p))).2
+      (step (run {} es).1 (.packet c (.publish p))).2 ∧
+    (step (run {} es).1 (.packet c (.publish p))).2 =
+      (if p.qos = 1 then [.send c (.puback p.pktid)] else []) ++ (onPublish (run {} es).1 ⟨p, false⟩).2.2.1 ∧
+    ∀ g,
+      (((modelGroup g (onPublish (run {} es).1 ⟨p, false⟩).2.2.1).filterMap pubOf).map wild).Perm
+        (((specRun {} es).1.held.filter (fun x => topicMatches x.filter p.topic && x.owner == g)).map
+          (fun x => mkCopy p.topic p.payload (min p.qos x.qos))) ∧
+      ((∀ x ∈ (specRun {} es).1.held, x.owner = g → topicMatches x.filter p.topic = false) →
+        modelGroup g (onPublish (run {} es).1 ⟨p, false⟩).2.2.1 = []) := by
+  have hR := Mqtt.Proofs.BrokerRefine.reach es hok
+  obtain ⟨hg, hn, hq2, hid⟩ := Mqtt.Proofs.BrokerRefine.pubOk_iff p hp
+  have hmok : (⟨p, false⟩ : Msg).p.pktid ≠ 0 ∨ (⟨p, false⟩ : Msg).dirty = true ∨ (⟨p, false⟩ : Msg).p.qos = 0 := by
+    rcases hid with h0 | h0
+    · exact .inr (.inr h0)
+    · exact .inl h0
+  refine ⟨(Mqtt.Proofs.BrokerRefine.reach_step es hok (.packet c (.publish p)) hp).2.1, ?_, ?_⟩
+  · obtain ⟨cn, σ, hc, ha, hs⟩ := hR.inv.live _ c hl
+    have : p.qos = 0 ∨ p.qos = 1 := by omega
+    rcases this with h0 | h1
+    · have := Mqtt.Proofs.BrokerQos.packet_publish0 hc ha hs p h0
+      show (packet _ c (.publish p)).2 = _
+      rw [this]; simp [h0]
+    · have := Mqtt.Proofs.BrokerQos.packet_publish1 hc ha hs p h1
+      show (packet _ c (.publish p)).2 = _
+      rw [this]; simp [h1]
+  · intro g
+    exact ⟨(Mqtt.Proofs.BrokerRefine.publish_copies hR ⟨p, false⟩ hg hn hq2 hmok g).1,
+      Mqtt.Proofs.BrokerRefine.publish_nobody_else hR ⟨p, false⟩ hg hn hq2 hmok g⟩
 
 end Mqtt.Properties.C01
